@@ -405,6 +405,56 @@ func cmdCheck(args []string) {
 		fail(fmt.Errorf("no harness serves %s", id))
 	}
 
+	// thorough tier: a sample of the harnesses is decided again with a second solver (z3 5.x); the
+	// path statistics must agree. A disagreement means the encoding relies on something one of the
+	// solvers gets wrong: machinery failure, nothing is reported.
+	cross := map[string]interface{}{"ran": false}
+	if *tier == "thorough" && *solverName != "z3-new" {
+		if _, lerr := exec.LookPath("z3-new"); lerr == nil {
+			var sample []harness
+			byName := map[string]*harnessResult{}
+			for _, r := range results {
+				byName[r.Name] = r
+			}
+			for _, h := range selected {
+				r := byName[h.name]
+				if r == nil || r.BudgetHit || r.Seconds > 20 || r.Solver.Seconds > 1.0 || r.Solver.Queries == 0 || r.Solver.Unknown > 0 || len(r.Unsupported) > 0 {
+					continue
+				}
+				if len(sample) < 24 {
+					sample = append(sample, h)
+				}
+			}
+			if len(sample) > 0 {
+				b2 := b
+				b2.MaxSeconds = 120
+				ex2, err2 := newExplorer(w, b2, "z3-new")
+				if err2 == nil {
+					res2 := ex2.runMany(sample, nil)
+					ex2.close()
+					agree, skipped := 0, 0
+					var diffs []string
+					for _, r2 := range res2 {
+						r1 := byName[r2.Name]
+						if r1 == nil || r2.BudgetHit || r2.Solver.Unknown > 0 || r2.Solver.Errors > 0 {
+							skipped++
+							continue
+						}
+						if r1.Paths != r2.Paths || r1.Candidates != r2.Candidates || r1.Undischarged != r2.Undischarged {
+							diffs = append(diffs, fmt.Sprintf("%s: cvc5 paths=%d cand=%d undis=%d, z3 paths=%d cand=%d undis=%d", r2.Name, r1.Paths, r1.Candidates, r1.Undischarged, r2.Paths, r2.Candidates, r2.Undischarged))
+						} else {
+							agree++
+						}
+					}
+					cross = map[string]interface{}{"ran": true, "second_solver": "z3-new", "harnesses": len(sample), "agree": agree, "inconclusive": skipped, "disagree": diffs}
+					if len(diffs) > 0 {
+						fail(fmt.Errorf("solvers disagree: %s", strings.Join(diffs, "; ")))
+					}
+				}
+			}
+		}
+	}
+
 	// validation of the stretch assumptions (A-PARSE, A-LEX, A-BOUNDARY) on this run's corpus
 	stRounds := 3
 	if *tier == "thorough" {
@@ -426,6 +476,7 @@ func cmdCheck(args []string) {
 	var hsum []interface{}
 	var allFails []*failure
 	vacuous := []string{}
+	var witnessJobs []*harnessResult
 	for _, r := range results {
 		totals["paths"] += r.Paths
 		totals["decisions"] += r.Decisions
@@ -462,22 +513,52 @@ func cmdCheck(args []string) {
 				vacuous = append(vacuous, r.Name)
 			}
 		} else if *tier == "thorough" || len(results) <= 40 {
-			pkgPath, fn := splitHarness(r.Name)
-			outcome, out := replayModel(pkgPath, fn, encodeModel(r.Witness["end"]), *tier, false)
-			replays++
-			if outcome == "pass" && strings.Contains(out, "VERIF-REACHED") && strings.Contains(out, "end") {
-				totals["witness_replays_ok"]++
-			} else if outcome == "build-failed" || outcome == "error" {
-				fail(fmt.Errorf("witness replay of %s could not be built:\n%s", r.Name, tailLines(out, 30)))
-			} else {
-				// the witness path may legitimately hit a (known) failure natively; record
-				totals["witness_replays_other"]++
-				allNotes["witness-replay-"+outcome+":"+r.Name]++
-			}
+			witnessJobs = append(witnessJobs, r)
 		}
 		for _, f := range r.Failures {
 			if failureServes(f, id) {
 				allFails = append(allFails, f)
+			}
+		}
+	}
+	// witness replays (vacuity guard, natively): at most 120, spread evenly, eight at a time
+	if n := len(witnessJobs); n > 120 {
+		var pick []*harnessResult
+		for i := 0; i < 120; i++ {
+			pick = append(pick, witnessJobs[i*n/120])
+		}
+		witnessJobs = pick
+	}
+	{
+		type wres struct {
+			r            *harnessResult
+			outcome, out string
+		}
+		wr := make([]wres, len(witnessJobs))
+		wsem := make(chan struct{}, 8)
+		var wwg sync.WaitGroup
+		for i, r := range witnessJobs {
+			wwg.Add(1)
+			wsem <- struct{}{}
+			go func(i int, r *harnessResult) {
+				defer wwg.Done()
+				defer func() { <-wsem }()
+				pkgPath, fn := splitHarness(r.Name)
+				o, out := replayModel(pkgPath, fn, encodeModel(r.Witness["end"]), *tier, false)
+				wr[i] = wres{r, o, out}
+			}(i, r)
+		}
+		wwg.Wait()
+		for _, x := range wr {
+			replays++
+			if x.outcome == "pass" && strings.Contains(x.out, "VERIF-REACHED") && strings.Contains(x.out, "end") {
+				totals["witness_replays_ok"]++
+			} else if x.outcome == "build-failed" || x.outcome == "error" {
+				fail(fmt.Errorf("witness replay of %s could not be built:\n%s", x.r.Name, tailLines(x.out, 30)))
+			} else {
+				// the witness path may legitimately hit a (known) failure natively; record
+				totals["witness_replays_other"]++
+				allNotes["witness-replay-"+x.outcome+":"+x.r.Name]++
 			}
 		}
 	}
@@ -625,6 +706,7 @@ func cmdCheck(args []string) {
 		"solver":                        map[string]interface{}{"name": *solverName, "stats": sv},
 		"notes":                         allNotes,
 		"harness_files_left_out":        droppedList,
+		"cross_solver_recheck":          cross,
 		"native_replays":                replays,
 		"explanation":                   "bounded symbolic execution of the real SSA of /repo (rebuilt this run) with an SMT solver deciding every branch and obligation; see DESIGN.md",
 		"assumption_validation":         map[string]interface{}{"what": "A-PARSE/A-LEX/A-BOUNDARY: concrete layouts (VERIF_SEED) parsed by the real parser and compared with the stretch map", "seeds": stSeeds, "layouts_per_seed": stRounds, "positions_compared": stChecked, "mismatches": stMism},
